@@ -138,6 +138,10 @@ def explore(ctx):
             def ex(v, fl):
                 return v if I64_MIN <= v <= I64_MAX else aggoracle.from_float(fl)      # not an i64: the float computation, normalised like every number
             aw[k] = (ex(a + b, float(a) + float(b)), ex(a - b, float(a) - float(b)), ex(a * b, float(a) * float(b)))
+            # a result beyond i64 whose double is itself an integer in range (only -2^63) would print as a saturated i64::MIN:
+            # that row is refused (fix 9eb768d)
+            if any(not (I64_MIN <= v <= I64_MAX) and isinstance(w, int) for v, w in zip((a + b, a - b, a * b), aw[k])):
+                aw[k] = ('<row missing>',)
             k += 1
     for binary in [None] + ([aglib.AGRIND_REL] if not quick else []):
         check_rows('int arithmetic', '* | json | a + b as s | a - b as d | a * b as p', al,
